@@ -38,6 +38,11 @@ def atom(rng: random.Random, reversed_ok=True) -> str:
             lit = rng.choice(pool)
         if reversed_ok and op in ("==", "!=") and rng.random() < 0.15:
             return f"{q(lit)} {op} {var}"
+        if reversed_ok and op in ("in", "not in") and rng.random() < 0.3:
+            # literal on the left: a substring test on the environment value
+            frag = rng.choice(pool) or "x"
+            frag = frag[: rng.choice([2, 3, len(frag)])]
+            return f"{q(frag)} {op} {var}"
         return f"{var} {op} {q(lit)}"
     if k < 0.62:
         op = rng.choice(CMP + ["in", "not in"])
@@ -60,6 +65,9 @@ def atom(rng: random.Random, reversed_ok=True) -> str:
         return _cmp("python_full_version", op, lit, rng, reversed_ok)
     if k < 0.87:
         op = rng.choice(["<", "<=", ">", ">=", "==", "!="])
+        if rng.random() < 0.4:
+            # a version-valued variable that is not one of the python_version pair (PyPy reports e.g. 7.3.11)
+            return _cmp("implementation_version", op, rng.choice(["3.8", "3.9", "3.8.0", "7.3.1", "7.3.10"]), rng, reversed_ok)
         return _cmp("platform_release", op, rng.choice(REL), rng, reversed_ok)
     op = rng.choice(["==", "!="])
     return f"extra {op} {q(rng.choice(EXTRAS))}"
@@ -125,6 +133,7 @@ def env_grid(texts, rng: random.Random, limit=48):
                 for (x, y, z) in [(X, Y, Z), (X, Y, Z + 1), (X, Y, max(Z - 1, 0)), (X, Y + 1, 0), (X, max(Y - 1, 0), 9), (X + 1, 0, 0)]:
                     pv_candidates.add((x, y, z))
     pv_candidates |= {(3, 8, 1), (2, 7, 18), (3, 12, 0)}
+    all_candidates = sorted(pv_candidates)
     pv_candidates = sorted(v for v in pv_candidates if 2 <= v[0] <= 4)
     envs = []
     extras_mentioned = [e for e in EXTRAS if e in lits]
@@ -133,7 +142,7 @@ def env_grid(texts, rng: random.Random, limit=48):
         x, y, z = rng.choice(pv_candidates)
         env = {"python_full_version": f"{x}.{y}.{z}", "python_version": f"{x}.{y}",
                "platform_release": rng.choice(REL + ["5.4.1", "6.1.0"]),
-               "platform_version": "#1 SMP", "implementation_version": f"{x}.{y}.{z}",
+               "platform_version": "#1 SMP", "implementation_version": "%d.%d.%d" % rng.choice(all_candidates),
                "platform_python_implementation": "CPython"}
         for v in STR_VARS:
             pool = list(STR_POOL[v])
